@@ -360,7 +360,11 @@ func TestVerifC20Builder(t *testing.T) {
 		nOps := rapid.IntRange(5, 30).Draw(rt, "nOps")
 		for o := 0; o < nOps; o++ {
 			l := fmt.Sprintf("o%d", o)
-			switch k := rapid.IntRange(0, 99).Draw(rt, l+"k"); {
+			k := rapid.IntRange(0, 99).Draw(rt, l+"k")
+			if o == 0 && k >= 40 {
+				k = 0
+			}
+			switch {
 			case k < 18: // AddEdge
 				ci := rapid.IntRange(0, nChans-1).Draw(rt, l+"c")
 				c := chans[ci]
@@ -404,7 +408,7 @@ func TestVerifC20Builder(t *testing.T) {
 				c := chans[ci]
 				d := rapid.IntRange(0, 1).Draw(rt, l+"d")
 				p := &c20bPol{
-					ts: baseTS + uint32(rapid.IntRange(0, 4).
+					ts: baseTS + uint32(rapid.IntRange(0, 3).
 						Draw(rt, l+"ts")),
 					chFlags: lnwire.ChanUpdateChanFlags(d),
 					timelock: uint16(rapid.IntRange(0, 65535).
